@@ -294,7 +294,7 @@ def run_shard(ctx):
     strat = st.builds(lambda i, pre: {"scenario": SCENARIOS[i % len(SCENARIOS)], "preemptions": [list(p) for p in pre]},
                       st.integers(0, len(SCENARIOS) - 1),
                       st.lists(st.tuples(st.integers(0, 700), st.integers(0, 2)), min_size=2, max_size=8).map(sorted))
-    core.hyp_search(strat, lambda c: execute(c, ctx.scratch), stats, max_examples=120 if thorough else 6,
+    core.hyp_search(strat, lambda c: execute(c, ctx.scratch), stats, max_examples=400 if thorough else 6,
                     seed=core.hash64(ctx.seed, ID, ctx.shard), findings=ctx.findings, shrink=thorough,
                     deadline_s=(t_end - time.time()) if t_end else None)
     return stats
